@@ -295,6 +295,20 @@ def run_adhist(tape, out):
                 shapes.append(('sampler', len(rows)))
                 out.probes['sampler_round_between_hand_rounds'] += 1
             else:
+                if tape.chance('discarded_round_with_non_finite_rows', 1, 8):
+                    # a round that met a non-finite summary value (log of an all-zero count, an
+                    # overflow) and is thrown away by starting a new one: nothing of it may
+                    # survive into the rounds that follow
+                    bad = [spec['gains'][j] * rs.normal(loc=j, scale=0.5 + j,
+                                                        size=(3,) + ((w,) if w > 1 else ()))
+                           for j, w in enumerate(widths)]
+                    bad[tape.int('non_finite_column', 0, len(bad) - 1)][1] = \
+                        tape.choice('non_finite_value', [-np.inf, np.inf, np.nan])
+                    with np.errstate(all='ignore'):
+                        node.add_data(*bad)
+                    node.init_adaptation_round()
+                    open_rows = []
+                    out.probes['non_finite_round_discarded'] += 1
                 # update_distance starts a new round itself; an explicit init is optional
                 if tape.chance('explicit_init', 1, 2):
                     node.init_adaptation_round()
